@@ -81,6 +81,12 @@ Theorem C09_fragment_round_trip_text : forall t, wf_b t = true -> one_string_ok 
 Proof. exact fragment_round_trip_text. Qed.
 Print Assumptions C09_fragment_round_trip_text.
 
+(* ... and for whole documents of several such blocks separated by blank lines *)
+Theorem C09_fragment_seq_round_trip : forall ts, seq_ok_b ts = true -> forallb wf_b ts = true ->
+  render_md (mkMopts false) None (fst (fst (parse_lines cfg_markdown (text_of (join_blank (map spell ts)))))) = concat (text_of (join_blank (map spell ts))).
+Proof. exact fragment_seq_round_trip. Qed.
+Print Assumptions C09_fragment_seq_round_trip.
+
 (* ... and on the outline lists of Spec/Outline.v (tight nested bullet lists, one item per line, any size and depth; any
    bullet, 1-4 spaces after it, sub-lists indented 0-3 columns inside their item, the whole list indented 0-3): the
    round trip is the identity *)
